@@ -424,6 +424,11 @@ func (p *Parser) ParseTableProperty() (*ast.TableProperty, error) {
 		Meta: p.curToken,
 		Key:  key,
 	}
+	// For a long string key the current token is the closing delimiter,
+	// the leading comments have been collected on the key itself
+	if key.LongString {
+		prop.Leading = key.Leading
+	}
 	prop.Key.Meta = clearComments(prop.Key.Meta)
 
 	if !p.ExpectPeek(token.COLON) {
